@@ -8,6 +8,63 @@ theorem bind_error {α β : Type} (er : Err) (f : α → Except Err β) :
 theorem map_ok {α β : Type} (a : α) (f : α → β) : (Except.ok a : Except Err α).map f = .ok (f a) := rfl
 theorem map_error {α β : Type} (er : Err) (f : α → β) : (Except.error er : Except Err α).map f = .error er := rfl
 
+/-! ### gen rules: the generated one-line rules of reader and writer (the ONLY place where they are unfolded).
+  Each lemma states what the theorems need of the rule; an equivalent rewrite of the source line keeps them
+  provable, a different rule breaks them. -/
+
+open Nb.Gen.C11 in
+theorem readLoopCond_eq (s : Int) : (readLoopCond s = true) = (s ≥ 16 ∨ s < 0) := by
+  unfold readLoopCond
+  exact propext ⟨fun h => by have := of_decide_eq_true h; omega, fun h => decide_eq_true (by omega)⟩
+
+open Nb.Gen.C11 in
+theorem zeroSizeStops_eq (e : Int) : (zeroSizeStops e = true) = (e = 0) := by
+  unfold zeroSizeStops
+  exact propext ⟨fun h => by have := of_decide_eq_true h; omega, fun h => decide_eq_true (by omega)⟩
+
+open Nb.Gen.C11 in
+theorem readCount_eq (e : Int) : readCount e = e - 8 := by unfold readCount; omega
+
+open Nb.Gen.C11 in
+theorem contentLenOk_eq (g e : Int) : (contentLenOk g e = true) = (g = e - 8) := by
+  unfold contentLenOk
+  exact propext ⟨fun h => by have := of_decide_eq_true h; omega, fun h => decide_eq_true (by omega)⟩
+
+open Nb.Gen.C11 in
+theorem sizeAfter_eq (s e : Int) : sizeAfter s e = s - e := by unfold sizeAfter; omega
+
+open Nb.Gen.C11 in
+theorem extSize_eq (v t : Int) : extSize v t = v - t := by unfold extSize; omega
+
+open Nb.Gen.C11 in
+theorem minVoxOffset_eq (a b : Int) : minVoxOffset a b = a + b := by unfold minVoxOffset; omega
+
+open Nb.Gen.C11 in
+theorem offsetUnset_eq (v : Int) : (offsetUnset v = true) = (v = 0) := by
+  unfold offsetUnset
+  exact propext ⟨fun h => by have := of_decide_eq_true h; omega, fun h => decide_eq_true (by omega)⟩
+
+open Nb.Gen.C11 in
+theorem offsetTooSmall_eq (v m : Int) : (offsetTooSmall v m = true) = (v < m) := by
+  unfold offsetTooSmall
+  exact propext ⟨fun h => by have := of_decide_eq_true h; omega, fun h => decide_eq_true (by omega)⟩
+
+open Nb.Gen.C11 in
+theorem storedBelow_eq (v m : Int) : (storedBelow v m = true) = (v < m) := by
+  unfold storedBelow
+  exact propext ⟨fun h => by have := of_decide_eq_true h; omega, fun h => decide_eq_true (by omega)⟩
+
+open Nb.Gen.C11 in
+theorem padBytes_eq (x r t : Int) : padBytes x r t = x + r - t := by unfold padBytes; omega
+
+/-- rewrite every generated rule into its specification -/
+macro "gen_norm" : tactic =>
+  `(tactic| simp only [readLoopCond_eq, zeroSizeStops_eq, readCount_eq, contentLenOk_eq, sizeAfter_eq, extSize_eq,
+      minVoxOffset_eq, offsetUnset_eq, offsetTooSmall_eq, storedBelow_eq, padBytes_eq])
+
+theorem minOffset_eq (fmt : Fmt) (xs : List Ext) : minOffset fmt xs = (fmt.singleOff : Int) + totalSize xs := by
+  unfold minOffset; exact minVoxOffset_eq _ _
+
 /-! ### the generated size expression (the ONLY place where it is unfolded) -/
 
 theorem sizeOnDisk_spec (n : Nat) :
@@ -129,10 +186,11 @@ theorem serializeExt_ok (e : Endian) (x : Ext) (h : ExtOK x) :
     serializeExt e x = .ok (encI32 e (sizeOnDisk x.content.length) ++ encI32 e x.code ++ x.content ++
       zeros (padLen x)) := by
   have hs := sizeOnDisk_spec x.content.length
+  have hp : (0 + sizeOnDisk x.content.length - (8 + (x.content.length : Int))).toNat = padLen x := by
+    unfold padLen; omega
   unfold serializeExt
-  simp only []
-  rw [if_neg (by intro hn; exact hn ⟨h.2, h.1⟩), if_neg (by omega)]
-  rfl
+  simp only [padBytes_eq]
+  rw [if_neg (by intro hn; exact hn ⟨h.2, h.1⟩), if_neg (by omega), hp]
 
 theorem serializeExt_err (e : Endian) (x : Ext) (h : ¬ ExtOK x) : serializeExt e x = .error .overflow := by
   unfold serializeExt
@@ -161,6 +219,7 @@ theorem parse_record (b : Bool) (e : Endian) (fuel : Nat) (esize ecode : Int) (b
   have hwant : ¬ (esize - 8 < 0) := by omega
   have hlen : (esize - 8).toNat = body.length := by omega
   rw [parseExtsAux]
+  gen_norm
   rw [if_pos hsz]
   simp only [List.cons_append, List.nil_append, List.take_succ_cons, List.take_zero, List.drop_succ_cons,
     List.drop_zero, hda, hdc]
@@ -243,6 +302,7 @@ theorem parse_serialized (b : Bool) (e : Endian) :
 theorem parse_gap (e : Endian) (fuel g : Nat) (d : List Nat) :
     parseExtsAux true e (fuel + 1) (zeros g ++ d) (g : Int) = .ok [] := by
   rw [parseExtsAux]
+  gen_norm
   by_cases hg : (g : Int) ≥ 16 ∨ (g : Int) < 0
   · rw [if_pos hg]
     obtain ⟨g', rfl⟩ : ∃ g', g = g' + 8 := ⟨g - 8, by omega⟩
@@ -253,7 +313,9 @@ theorem parse_gap (e : Endian) (fuel g : Nat) (d : List Nat) :
 /-- what follows the last record in a header file of a pair: nothing -/
 theorem parse_eof (b : Bool) (e : Endian) (fuel : Nat) (size : Int) (h : size < 0) :
     parseExtsAux b e (fuel + 1) [] size = .ok [] := by
-  rw [parseExtsAux, if_pos (Or.inr h)]
+  rw [parseExtsAux]
+  gen_norm
+  rw [if_pos (Or.inr h)]
   simp [h]
 
 /-! ### files -/
@@ -370,7 +432,7 @@ theorem readSingle_layout (fmt : Fmt) (e : Endian) (xs : List Ext) (bytes data :
         simp only [hb, List.cons_append, List.nil_append, List.take_succ_cons, List.take_zero,
           List.drop_succ_cons, List.drop_zero, List.append_assoc]
         rw [if_neg (by omega)]
-        simp only [if_true]
+        simp only [if_true, extSize_eq]
         have hsz : (off : Int) - ((fmt.hdrSize : Int) + 4) =
             totalSize (x :: xs) + ((off - fmt.hdrSize - ([1, 0, 0, 0] ++ bytes).length : Nat) : Int) := by
           simp only [List.length_append, List.length_cons, List.length_nil]
@@ -560,19 +622,19 @@ theorem exact_mul16 (fmt : Fmt) (n : Nat) (h16 : n % 16 = 0) (h : n < 268435456)
 theorem offFill_spec (fmt : Fmt) (m : Nat) :
     m ≤ fmt.offFill m ∧ (fmt.Exact m → fmt.offFill m = m) ∧ (m % 16 = 0 → fmt.offFill m % 16 = 0) := by
   unfold Fmt.offFill Fmt.Exact
-  simp only []
+  simp only [storedBelow_eq]
   by_cases hf : fmt.voxF32 = true
   · have hrep : fmt.offRepr m = f32round m := by unfold Fmt.offRepr; rw [if_pos hf]
     have hnext : ∀ s, fmt.offNext s = f32next s := by intro s; unfold Fmt.offNext; rw [if_pos hf]
     rw [hrep]
     by_cases hlt : f32round m < m
     · obtain ⟨hn, hgt⟩ := f32next_round m hlt
-      rw [if_pos hlt, hnext]
+      rw [if_pos (by omega), hnext]
       refine ⟨by omega, fun h => by omega, fun h16 => ?_⟩
       rcases f32_mod16 m h16 with ⟨_, h2⟩ | h2
       · rw [hn]; exact h2
       · omega
-    · rw [if_neg hlt]
+    · rw [if_neg (by omega)]
       refine ⟨by omega, fun h => h, fun h16 => ?_⟩
       rcases f32_mod16 m h16 with ⟨h1, h2⟩ | h2
       · rcases f32round_cases m with h' | h' <;> rw [h'] <;> assumption
@@ -588,14 +650,14 @@ def chosenOffset (fmt : Fmt) (xs : List Ext) (userOff : Nat) : Nat :=
 theorem chooseOffset_eq (fmt : Fmt) (xs : List Ext) (userOff : Nat)
     (hfit : minOffset fmt xs ≤ (chosenOffset fmt xs userOff : Int)) :
     chooseOffset fmt xs userOff = .ok ((chosenOffset fmt xs userOff : Nat) : Int) := by
+  have hm : minOffset fmt xs = (fmt.singleOff : Int) + totalSize xs := minOffset_eq fmt xs
   unfold chooseOffset chooseOffsetT
   unfold chosenOffset at hfit ⊢
-  simp only []
+  gen_norm
   by_cases h0 : fmt.offRepr userOff = 0
-  · rw [if_pos h0, if_pos h0]; rfl
+  · rw [if_pos (by omega), if_pos h0, ← hm]
   · rw [if_neg h0] at hfit
-    have hm : minOffset fmt xs = (fmt.singleOff : Int) + totalSize xs := rfl
-    rw [if_neg h0, if_neg h0, if_neg (by omega)]
+    rw [if_neg (by omega), if_neg h0, if_neg (by omega)]
 
 /-- the STORED offset leaves room: the only thing the file-level theorems need of the field's precision.
     It holds whenever the values involved are exact (`fits_of_exact`), and also when rounding goes UP. -/
@@ -611,7 +673,7 @@ theorem fits_of_exact (fmt : Fmt) (xs : List Ext) (userOff : Nat)
     Fits fmt xs userOff ∧
       chosenOffset fmt xs userOff = (if userOff = 0 then (minOffset fmt xs).toNat else userOff) := by
   have hnn := totalSize_nonneg xs
-  have hm : minOffset fmt xs = (fmt.singleOff : Int) + totalSize xs := rfl
+  have hm : minOffset fmt xs = (fmt.singleOff : Int) + totalSize xs := minOffset_eq fmt xs
   unfold Fits chosenOffset
   unfold Fmt.Exact at hxu
   rw [hxu]
@@ -636,7 +698,7 @@ theorem fits_of_request (fmt : Fmt) (xs : List Ext) (userOff : Nat)
     (hoff : userOff = 0 ∨ ((fmt.singleOff : Int) + totalSize xs ≤ (userOff : Int) ∧ fmt.Exact userOff)) :
     Fits fmt xs userOff ∧
       chosenOffset fmt xs userOff = (if userOff = 0 then fmt.offFill (minOffset fmt xs).toNat else userOff) := by
-  have hm : minOffset fmt xs = (fmt.singleOff : Int) + totalSize xs := rfl
+  have hm : minOffset fmt xs = (fmt.singleOff : Int) + totalSize xs := minOffset_eq fmt xs
   by_cases h0 : userOff = 0
   · subst h0
     refine ⟨fits_library fmt xs 0 (offRepr_zero fmt), ?_⟩
@@ -696,7 +758,7 @@ theorem writeSingle_ok (fmt : Fmt) (e : Endian) (xs : List Ext) (userOff : Nat) 
   obtain ⟨_, hf2, hf3⟩ := hf
   have hlen : (extender xs ++ bytes).length = 4 + bytes.length := by
     rw [List.length_append, extender_length]
-  have hmin : minOffset fmt xs = (fmt.singleOff : Int) + totalSize xs := rfl
+  have hmin : minOffset fmt xs = (fmt.singleOff : Int) + totalSize xs := minOffset_eq fmt xs
   refine ⟨?_, by omega⟩
   unfold writeSingle
   rw [chooseOffset_eq fmt xs userOff hfit, bind_ok, hblk, bind_ok, if_neg (by omega)]
@@ -712,10 +774,10 @@ theorem writeSingle_ok (fmt : Fmt) (e : Endian) (xs : List Ext) (userOff : Nat) 
 theorem writeSingle_small (fmt : Fmt) (e : Endian) (xs : List Ext) (userOff : Nat) (data : List Nat)
     (h0 : fmt.offRepr userOff ≠ 0) (hsmall : (fmt.offRepr userOff : Int) < minOffset fmt xs) :
     writeSingle fmt e xs userOff data = .error .headerData := by
+  have hm : minOffset fmt xs = (fmt.singleOff : Int) + totalSize xs := minOffset_eq fmt xs
   unfold writeSingle chooseOffset chooseOffsetT
-  simp only []
-  have hsmall' : (fmt.offRepr userOff : Int) < (fmt.singleOff : Int) + totalSize xs := hsmall
-  rw [if_neg h0, if_pos hsmall', bind_error]
+  gen_norm
+  rw [if_neg (by omega), if_pos (by omega), bind_error]
 
 /-- whatever a successful single-file save wrote into the field is the offset the rule chose -/
 theorem writeSingle_voxOffset (fmt : Fmt) (e : Endian) (xs : List Ext) (userOff : Nat) (data : List Nat) (f : HFile)
@@ -751,6 +813,7 @@ theorem parse_no_fuel (b : Bool) (e : Endian) : ∀ (fuel : Nat) (bs : List Nat)
   | succ fuel ih =>
       intro bs size hlen
       rw [parseExtsAux]
+      gen_norm
       split
       · split
         · split <;> (intro h; cases h)
@@ -759,7 +822,6 @@ theorem parse_no_fuel (b : Bool) (e : Endian) : ∀ (fuel : Nat) (bs : List Nat)
             have := congrArg List.length htake
             simp only [List.length_take, List.length_cons, List.length_nil] at this
             omega
-          simp only []
           repeat' split
           all_goals first
             | (intro h; cases h; done)
